@@ -14,7 +14,7 @@ from .values import (Unsupported, Infeasible, PyRaise, Return, Break, Continue, 
                      VDict, VMap, VOpt, VObj, VSym, VClass, VFunc, VBuiltin, VModule,
                      VBoundMethod, VExcInstance, VStr, NAN, INF, exc_isinstance)
 from .state import State, PathResult
-from .values import VComp
+from .values import VComp, VArrN, VArrTag
 
 
 class ClassInfo:
@@ -291,6 +291,14 @@ class Interp:
         if isinstance(a, (str, VStr)) or isinstance(b, (str, VStr)) or \
                 (is_z3(a) and z3.is_string(a)) or (is_z3(b) and z3.is_string(b)):
             return self.str_binop(st, opn, a, b, node)
+        if isinstance(a, VArrN) or isinstance(b, VArrN):
+            if isinstance(a, VArrN) and isinstance(b, VArrN):
+                if len(a.items) != len(b.items):
+                    self.raise_("ValueError", "operands could not be broadcast together", node)
+                return VArrN([self.binop(st, op, x, y, node) for x, y in zip(a.items, b.items)])
+            if isinstance(a, VArrN):
+                return VArrN([self.binop(st, op, x, b, node) for x in a.items])
+            return VArrN([self.binop(st, op, a, y, node) for y in b.items])
         if isinstance(a, (VTuple, VList)) or isinstance(b, (VTuple, VList)):
             if opn == "Add" and isinstance(a, (VTuple, VList)) and isinstance(b, (VTuple, VList)):
                 if a.kind != b.kind:
@@ -317,12 +325,25 @@ class Interp:
             if opn == "Pow" and isinstance(b, int) and b == 2:
                 return ca * ca
             raise Unsupported("complex op %s" % opn)
+        if opn in ("BitOr", "BitAnd"):
+            def as_b(x):
+                if isinstance(x, bool):
+                    return x
+                if is_z3(x) and z3.is_bool(x):
+                    return x
+                if isinstance(x, int) and x in (0, 1):
+                    return bool(x)
+                return None
+            ba, bb = as_b(a), as_b(b)
+            if ba is not None and bb is not None:
+                return self.or_(ba, bb) if opn == "BitOr" else self.and_(ba, bb)
         if not (is_num(a) and is_num(b)):
             raise Unsupported("binop %s on %r, %r" % (opn, type(a).__name__, type(b).__name__))
-        if is_z3(a) and z3.is_bool(a):
-            a = to_z3num(a)
-        if is_z3(b) and z3.is_bool(b):
-            b = to_z3num(b)
+        if opn not in ("BitOr", "BitAnd"):
+            if is_z3(a) and z3.is_bool(a):
+                a = to_z3num(a)
+            if is_z3(b) and z3.is_bool(b):
+                b = to_z3num(b)
         if opn == "Add":
             return num_add(a, b)
         if opn == "Sub":
@@ -359,11 +380,6 @@ class Interp:
             if z3.is_int(ea) and z3.is_int(eb) and is_concrete_num(b) and b > 0:
                 return ea / eb
             raise Unsupported("symbolic floor division")
-        if opn in ("BitOr", "BitAnd") and (isinstance(a, bool) or (is_z3(a) and z3.is_bool(a)) or a in (0, 1)) \
-                and (isinstance(b, bool) or (is_z3(b) and z3.is_bool(b)) or b in (0, 1)):
-            ba = a if isinstance(a, bool) or is_z3(a) else bool(a)
-            bb = b if isinstance(b, bool) or is_z3(b) else bool(b)
-            return self.or_(ba, bb) if opn == "BitOr" else self.and_(ba, bb)
         raise Unsupported("binop %s" % opn)
 
     def check_div(self, st, b, node):
@@ -522,6 +538,13 @@ class Interp:
                 return self.call_property(st, obj, info, name)
             if name in obj.attrs:
                 return obj.attrs[name]
+            if info is None:
+                qual = "%s.%s" % (obj.cls, name)
+                if qual + "@get" in self.contracts:
+                    return self.contracts[qual + "@get"](self, st, [obj], {})
+                if qual in self.contracts:
+                    return VBoundMethod(obj, name)
+                self.raise_("AttributeError", "%s has no attribute %s" % (obj.cls, name), node)
             if info is not None:
                 if name in info.methods:
                     return VBoundMethod(obj, name)
@@ -829,6 +852,13 @@ class Interp:
 
     def e_Subscript(self, st, fr, node):
         obj = self.resolve(st, self.eval(st, fr, node.value))
+        if isinstance(obj, VArrN) and isinstance(node.slice, ast.Tuple):
+            elts = node.slice.elts
+            if len(elts) == 2 and isinstance(elts[0], ast.Slice) and elts[0].lower is None and elts[0].upper is None \
+                    and isinstance(elts[1], ast.Constant) and elts[1].value is None:
+                self.assumed.add("A2 numpy a[:, None]: adds a trailing axis (broadcast against the wavelength axis)")
+                return obj
+            raise Unsupported("array subscript")
         if isinstance(node.slice, ast.Slice):
             lo = self.eval(st, fr, node.slice.lower) if node.slice.lower else None
             hi = self.eval(st, fr, node.slice.upper) if node.slice.upper else None
